@@ -412,7 +412,7 @@ fn sort_elem(rng: &mut Rng, kind: usize) -> V {
         4 => match rng.below(6) {
             0 | 1 => V::I(rng.range(0, 6)),
             2 | 3 => vs(*rng.pick(&["a", "b", "c", "x"])),
-            4 => V::Bool(rng.chance(1, 2)),
+            4 => if rng.chance(1, 2) { V::Bool(rng.chance(1, 2)) } else { V::R(Some(rng.range(0, 2)), Some((rng.range(1, 3), rng.chance(1, 2)))) },
             _ => V::T(vec![V::I(rng.range(0, 2))]),
         },
         0 => V::I(rng.range(-3, 6)),
@@ -472,7 +472,7 @@ fn run_sorts(cx: &mut Ctx, rng: &mut Rng, count: usize) {
         let mut kind = rng.below(4);
         let len = if rng.chance(1, 8) { rng.below(40) } else { rng.below(9) };
         let mode = rng.below(4); // 0 list.sort, 1 sort by key on (key, tag), 2 tuple.sort_copy, 3 map.sort
-        // map.sort() with keys of mixed kinds (F-C14-5): numbers, strings, bools, tuples, ranges
+        // map.sort() with keys of mixed kinds (regression for F-C14-5, fixed): numbers, strings, bools, tuples, ranges
         let mixed = mode == 3 && rng.chance(1, 3);
         if mixed {
             kind = 4;
@@ -527,18 +527,16 @@ fn run_sorts(cx: &mut Ctx, rng: &mut Rng, count: usize) {
                 let nn = |xs: &[V]| xs.iter().filter(|x| !matches!(x, V::T(e) if e[0] == V::Null)).cloned().collect::<Vec<_>>();
                 let nulls_first = ov.iter().position(|x| matches!(x, V::T(e) if e[0] == V::Null)).map(|p| p == 0).unwrap_or(true);
                 if mixed {
-                    // permutation + no comparable pair out of order (judged with the implementation's `<`)
+                    // permutation + ordered under the documented total order of keys
                     let keys = |xs: &[V]| xs.iter().map(|x| match x { V::T(e) => e[0].clone(), v => v.clone() }).collect::<Vec<_>>();
                     let (ik, ok) = (keys(&iv), keys(&ov));
                     let (mut a, mut b): (Vec<String>, Vec<String>) = (ik.iter().map(|x| x.canon()).collect(), ok.iter().map(|x| x.canon()).collect());
                     a.sort();
                     b.sort();
                     let mut why = if a != b { Some("not a permutation".to_string()) } else { None };
-                    for x in 0..ok.len() {
-                        for y in x + 1..ok.len() {
-                            if why.is_none() && impl_lt(&mut vm, &ok[y], &ok[x]) {
-                                why = Some(format!("F-C14-5: {} before {}", ok[x].canon(), ok[y].canon()));
-                            }
+                    for w in ok.windows(2) {
+                        if why.is_none() && spec_key_cmp(&w[1], &w[0]) == std::cmp::Ordering::Less {
+                            why = Some(format!("not ordered: {} before {}", w[0].canon(), w[1].canon()));
                         }
                     }
                     why
@@ -551,8 +549,7 @@ fn run_sorts(cx: &mut Ctx, rng: &mut Rng, count: usize) {
             _ => Some("unexpected output shape".into()),
         };
         if let Some(why) = bad {
-            let f5 = if mixed && why.starts_with("F-C14-5") { Some("F-C14-5") } else { None };
-            cx.d_or_known("sort_sorted_perm_stable", f5, json!({"kind": "sort", "request": req, "impl": got, "why": why}));
+            cx.d_violation("sort_sorted_perm_stable", json!({"kind": "sort", "request": req, "impl": got, "why": why}));
         }
     }
 }
